@@ -63,10 +63,12 @@ inductive Lbl where
   | issueFail (r : Route) (tns : Nat)    -- the same, but the send to the owner failed: undone
   | drop (o : Nat) (r : Route)           -- entry `r` of `o`'s table resolved (reply or expiry)
   | close (c : Nat)                      -- peer `c` released
+  | connect (c : Nat) (addr : Bytes)     -- a new peer
 
 def Lbl.ticks : Lbl → Nat
   | .drop _ _ => 0
   | .close _ => 0
+  | .connect _ _ => 0
   | _ => 1
 
 def app : Lbl → RS → RS
@@ -80,6 +82,7 @@ def app : Lbl → RS → RS
   | .drop o r, a => { a with V := vRemove a.V o r.rid, tl := .timerDestroy r.timer :: a.tl }
   | .close c, a =>
     { a with V := vClose a.V c, tl := ((vCloseRoutes a.V c).map (fun r => Obs.timerDestroy r.timer)).reverse ++ a.tl }
+  | .connect c addr, a => { a with V := a.V ++ [⟨c, addr, []⟩] }
 
 /-- a new entry as `alloc_routing_request` + `setup_routing_information` build it -/
 def Fresh (a : RS) (r : Route) : Prop :=
@@ -92,6 +95,7 @@ def Pre : Lbl → RS → Prop
   | .issueFail r _, a => Fresh a r
   | .drop o r, a => r ∈ vTable a.V o
   | .close c, a => ∃ v ∈ a.V, v.conn = c
+  | .connect c _, a => ∀ v ∈ a.V, v.conn ≠ c
 
 def Steps : List Lbl → RS → RS → Prop
   | [], a, b => b = a
@@ -312,5 +316,32 @@ theorem eq_of_nodup_map {α β : Type} (f : α → β) {l : List α} (hn : (l.ma
     · exact absurd (h ▸ List.mem_map_of_mem hb') hn.1
     · exact absurd (h ▸ List.mem_map_of_mem ha') hn.1
     · exact ih hn.2 ha' hb'
+
+/-! ## the structural invariant of the routing tables -/
+
+/-- Well-formedness of the routing tables (unconditional invariant of the daemon):
+    connection numbers are distinct; an entry stored in `o`'s table names `o` as its owner;
+    its requester is a connected peer; its timer id is below the timer counter and no two entries
+    share a timer. -/
+structure WfV (V : List PV) (nt : Nat) : Prop where
+  conns : (V.map (·.conn)).Nodup
+  owner : ∀ v ∈ V, ∀ r ∈ v.routes, r.owner = v.conn
+  requester : ∀ r ∈ vRoutes V, ∃ v ∈ V, v.conn = r.requester
+  timerLt : ∀ r ∈ vRoutes V, r.timer < nt
+  timers : ((vRoutes V).map (·.timer)).Nodup
+
+def RS.Wf (a : RS) : Prop := WfV a.V a.nt
+
+/-- under `WfV`, an entry found anywhere sits in the table of the peer it names as owner -/
+theorem WfV.mem_table {V : List PV} {nt : Nat} (h : WfV V nt) {r : Route} (hr : r ∈ vRoutes V) :
+    r ∈ vTable V r.owner := by
+  obtain ⟨v, hv, hrv⟩ := mem_vRoutes.mp hr
+  rw [h.owner v hv r hrv, vTable_of_mem h.conns hv]
+  exact hrv
+
+theorem WfV.table_owner {V : List PV} {nt : Nat} (h : WfV V nt) {o : Nat} {r : Route} (hr : r ∈ vTable V o) :
+    r.owner = o := by
+  obtain ⟨v, hv, hc, hrv⟩ := vTable_mem hr
+  rw [h.owner v hv r hrv, hc]
 
 end Cjet.Daemon.C03
